@@ -157,6 +157,8 @@ def run(chk, repo):
                 chk.require(bad is None, "C05-F1", f"{where}.{fname}", f"sum of widths {size} == declared length on all {n_eval} (length, count) pairs of the domain (closed form with floor/mod, evaluated)",
                             f"sum of widths is {size}: for a declared length of {bad[0] if bad else 0} bytes (count {bad[1] if bad else 0}) the record consumes {bad[2] if bad else 0} bytes - "
                             f"the next record is decoded from bytes shifted by {(bad[2] - bad[0]) if bad else 0}", key=f"{key}:{fname}:selfdelim", sample={"record": fname, "size": str(size), "evaluated": n_eval})
+            elif size == Poly.sym(f"file_descriptor.{fname}.record_length"):
+                chk.ok("C05-F1", f"{where}.{fname}", f"sum of widths = {size}: the length the file descriptor declares for this very record (the other declaration of the same length)")
             else:
               chk.require(
                 size == want, "C05-F1", f"{where}.{fname}",
